@@ -69,9 +69,14 @@ def judge_run(case, ob):
     # specified error
     if ob["stage"] != "abort":
         return ("run:missing-abort", {"expected": exp["err"], "observed": out})
+    if exp["err"].startswith(PANIC_ANY):
+        return None          # documented to panic; the message is not documented
     if ob.get("err") != exp["err"]:
         return ("run:wrong-error-text", {"expected": exp["err"], "observed": ob.get("err")})
     return None
+
+
+PANIC_ANY = "PANIC (message not specified)"      # spec/Core.tla PanicUnwrap
 
 
 def run_cases(ctx, cases, per_batch=120):
@@ -211,8 +216,13 @@ def ast_tags(node, out=None, parent=None):
                 out.add("closure-body:" + node["body"].get("k", "?"))
                 if _calls_with(node["body"], set(node["params"])):
                     out.add("closure-calls-with-param")
-            if k == "for":
+            if k in ("for", "forun"):
                 out.add("for-iter:" + node["iter"].get("k", "?"))
+                if node["iter"].get("k") == "mcall":
+                    out.add("for-iter:m:" + node["iter"]["name"])
+            if k in ("enumerate", "zip"):
+                for a in ([node["e"]] if k == "enumerate" else [node["a"], node["b"]]):
+                    out.add(k + "-arg:" + a.get("k", "?") + (":" + a["f"] if a.get("k") == "call" else ""))
             if k == "tuple":
                 for it in node["items"]:
                     out.add("tuple-item:" + it.get("k", "?"))
@@ -232,6 +242,80 @@ def obj_case(row, k, decls, prefix="j"):
     c["body"] = [_re.sub(r"\b(Sq|Rect|Base|Derived|Q2)\(", r"\1{N}(", l) for l in c["body"]]
     c["tags"] = sorted(set(row.get("feats", [])) | ast_tags(row["body"][4:-8]))
     return c
+
+
+def _fn_names(decls):
+    return [f["name"] for f in decls["fns"]]
+
+
+def iter_decls(decls, body_lines):
+    """the helper functions of spec/GenIter.tla (its DECLS row) that the rendered lines use, transitively, as source text;
+    every function name carries the per-case suffix {N}"""
+    names = _fn_names(decls)
+    rx = _re.compile(r"\b(" + "|".join(sorted(names, key=len, reverse=True)) + r")\(")
+    text = {f["name"]: render.render_fn(f) for f in decls["fns"]}
+    need, todo = [], list(dict.fromkeys(m for l in body_lines for m in rx.findall(l)))
+    while todo:
+        n = todo.pop(0)
+        if n in need:
+            continue
+        need.append(n)
+        todo += [m for l in text[n][1:] for m in rx.findall(l) if m not in need]
+    out = []
+    for f in decls["fns"]:          # declaration order of the specification
+        if f["name"] in need:
+            out.append("\n".join(rx.sub(r"\1{N}(", l) for l in text[f["name"]]) + "\n")
+    return "\n".join(out), [f for f in decls["fns"] if f["name"] in need], rx
+
+
+def iter_case(row, k, decls, prefix="i"):
+    """GenIter row -> e2e case (main body = prelude + operations + dump; decls = the helper functions it uses)"""
+    lines = []
+    for s in row["body"]:
+        lines += render.render_stmt(s, 0)
+    text, fns, rx = iter_decls(decls, lines)
+    return {"id": f"{prefix}{k}", "decls": text, "body": [rx.sub(r"\1{N}(", l) for l in lines], "aborts": row["status"] == "error",
+            "expect": {"out": row["out"], "status": row["status"], "err": row["err"]},
+            "tags": sorted(set(row.get("feats", [])) | ast_tags(row["body"][5:-5])), "ast": row["body"], "fns": fns, "kind": "iter"}
+
+
+def self_check_iter(ctx, cases):
+    """helper functions and main body must parse back to the ASTs the specification evaluated"""
+    reqs = [{"op": "parse", "src": c["decls"].replace("{N}", "") + "\ndef main() -> None:\n" +
+             "".join("    " + l.replace("{N}", "") + "\n" for l in c["body"])} for c in cases]
+    outs = common.replay_batch(reqs, timeout=1800)
+    rejects = {}
+    for c, q, o in zip(cases, reqs, outs):
+        ob = o.get("obs", {})
+        if not ob.get("ok"):
+            rejects[c["id"]] = ob.get("err") or ob
+            continue
+        real = [render.norm_real(d["body"]) for d in ob["ast"]["decls"] if d.get("k") == "fn"]
+        want = [render.to_project_block(f["body"]) for f in c["fns"]] + [render.to_project_block(c["ast"])]
+        if real != want:
+            bad = next((i for i in range(min(len(real), len(want))) if real[i] != want[i]), -1)
+            _selfcheck_mismatch(ctx, "renderer self-check failed for an iteration program", q["src"] + "\n" +
+                                json.dumps(real[bad] if bad >= 0 else real)[:2500] + "\n" + json.dumps(want[bad] if bad >= 0 else want)[:2500])
+    return rejects
+
+
+def iter_rows(ctx, quick_cfg="GenIter_2"):
+    """(rows, DECLS record) of the exhaustive GenIter universe"""
+    g = common.tlc(ctx, "GenIter", cfg=quick_cfg, workers=8, timeout=6000, want_tags=("CASE", "DECLS"))
+    common.require_tlc_ok(ctx, g, "GenIter / AllAccepted / Sound / OrderFree")
+    return g["cases"]["CASE"], g["cases"]["DECLS"][0]
+
+
+def iter_sources(ctx, n, rnd):
+    """formatter inputs (C08 / C09): n GenIter programs as source text, named gen:iter:<k>"""
+    rows, decls = iter_rows(ctx)
+    rows = rows if len(rows) <= n else rnd.sample(rows, n)
+    out = []
+    for k, r in enumerate(rows):
+        c = iter_case(r, k, decls)
+        out.append((f"gen:iter:{k}", c["decls"].replace("{N}", "") + "\ndef main() -> None:\n" +
+                    "".join("    " + l.replace("{N}", "") + "\n" for l in c["body"])))
+    return out
 
 
 def div_case(row, k, prefix="v"):
